@@ -141,29 +141,69 @@ def gen_constants(areas=()):
     return rc == 0, out
 
 
-def coq_project():
-    """(re)generate _CoqProject from the files present, and the Makefile when the file set changed"""
-    files = [os.path.relpath(f, COQ) for f in coq_files()]
+def _area_of(rel):
+    # theories/<Area>/File.v -> Area
+    parts = rel.split("/")
+    return parts[1] if len(parts) >= 3 else "Top"
+
+
+def _area_dirs(area, seen=None):
+    """directories (under theories/) whose files belong to an area's project: itself, Gen, Base,
+    and the areas named in theories/<Area>/DEPS (transitively)"""
+    seen = seen if seen is not None else []
+    if area in seen:
+        return seen
+    seen.append(area)
+    deps = os.path.join(THEORIES, area, "DEPS")
+    if os.path.exists(deps):
+        for ln in open(deps):
+            ln = ln.strip()
+            if ln and not ln.startswith("#"):
+                _area_dirs(ln, seen)
+    return seen
+
+
+def coq_project(area=None):
+    """(re)generate the project files.  With an area: coq/_CoqProject.<Area> + Makefile.<Area>
+    (only that area's files and its DEPS; lets several areas build concurrently).  Without: the
+    whole development (_CoqProject + Makefile), which is what a stranger's `make` uses."""
+    if area is None:
+        files = [os.path.relpath(f, COQ) for f in coq_files()]
+        suffix = ""
+    else:
+        dirs = _area_dirs(area) + ["Gen", "Base"]
+        files = []
+        for d in dirs:
+            files += [os.path.relpath(f, COQ) for f in sorted(glob.glob(os.path.join(THEORIES, d, "*.v")))]
+        files = sorted(set(files))
+        suffix = "." + area
     text = "-Q theories Blue\n-arg -w -arg -notation-overridden,-deprecated-hint-without-locality,-deprecated-instance-without-locality\n" + "\n".join(files) + "\n"
-    cp = os.path.join(COQ, "_CoqProject")
+    cp = os.path.join(COQ, "_CoqProject" + suffix)
+    mk = "Makefile" + suffix
     old = open(cp).read() if os.path.exists(cp) else None
-    if old != text or not os.path.exists(os.path.join(COQ, "Makefile")):
+    if old != text or not os.path.exists(os.path.join(COQ, mk)):
         with open(cp, "w") as fh:
             fh.write(text)
-        sh(["coq_makefile", "-f", "_CoqProject", "-o", "Makefile"], cwd=COQ, check=True)
+        sh(["coq_makefile", "-f", "_CoqProject" + suffix, "-o", mk], cwd=COQ, check=True)
+    return mk
 
 
 def coq_make(vo_targets, timeout=1500):
-    """full .vo build of the cone of the given targets (paths relative to coq/)"""
-    coq_project()
-    rc, out = sh(["make", "-j%d" % NCPU] + list(vo_targets), cwd=COQ, timeout=timeout)
+    """full .vo build of the cone of the given targets (paths relative to coq/), through the
+    coq_makefile-generated Makefile of the target's area, serialised per area by flock"""
+    area = _area_of(vo_targets[0])
+    os.makedirs(WORK, exist_ok=True)
+    mk = coq_project(area)
+    lock = os.path.join(WORK, "coq.%s.lock" % area)
+    rc, out = sh(["flock", lock, "make", "-f", mk, "-j%d" % NCPU] + list(vo_targets), cwd=COQ, timeout=timeout)
     return rc == 0, out
 
 
 def coq_cone(v_rel):
     """the .v files (relative to coq/) the given file transitively depends on, itself included"""
-    coq_project()
-    rc, out = sh(["coqdep", "-f", "_CoqProject"], cwd=COQ)
+    area = _area_of(v_rel)
+    coq_project(area)
+    rc, out = sh(["coqdep", "-f", "_CoqProject." + area], cwd=COQ)
     deps = {}
     for ln in out.splitlines():
         if ":" not in ln:
